@@ -80,21 +80,21 @@ theorem backendStep_named {sep : Str} (hne : sep ≠ []) (hb : unbordered sep = 
     (c : Cache) (hc : CacheInv c) (ps : List Piece) (hw : wf ps = true) (hp : procOK ps = true)
     (hd : detectOK ps = true) (hn : ps.any Piece.isNamed = true) (fv : List Str)
     (hlen : (keysOf ps).length ≤ fv.length) (hv : ∀ v ∈ fv, containsSub sep v = false) :
-    (backendStep sep san c (render ps) fv).1 =
+    (backendStep sep san false c (render ps) fv).1 =
       { msg := finishMsg san (msgSpec ps fv),
         pairs := some ((populateNames (keysOf ps) fv.length).zip (if san then fv.map sanitize else fv)) } ∧
-    CacheInv (backendStep sep san c (render ps) fv).2 := by
+    CacheInv (backendStep sep san false c (render ps) fv).2 := by
   have hdet : containsNamedArgs (render ps) = true := by rw [contains_render ps hw hd, hn]
   have hlk := lookupOrInsert_fst c hc (render ps)
   rw [process_render ps hw hp] at hlk
-  simp only [backendStep, hdet, if_true, hlk]
+  simp only [backendStep, hdet, if_true, hlk, Bool.false_eq_true, if_false]
   refine ⟨?_, lookupOrInsert_inv c hc (render ps)⟩
   rw [fmtSubst_render ps fv hw, namedPairs_eq hne hb san (keysOf ps) fv hlen hv]
 
 /-- … and on a template without a named placeholder: fmt gets the template itself, no pairs, cache untouched -/
 theorem backendStep_unnamed (sep : Str) (san : Bool) (c : Cache) (ps : List Piece) (hw : wf ps = true)
     (hd : detectOK ps = true) (hn : ps.any Piece.isNamed = false) (fv : List Str) :
-    backendStep sep san c (render ps) fv = ({ msg := finishMsg san (msgSpec ps fv), pairs := none }, c) := by
+    backendStep sep san false c (render ps) fv = ({ msg := finishMsg san (msgSpec ps fv), pairs := none }, c) := by
   have hdet : containsNamedArgs (render ps) = false := by rw [contains_render ps hw hd, hn]
   simp only [backendStep, hdet]
   have := fmtSubst_render ps fv hw
